@@ -437,6 +437,75 @@ pub fn run() -> i32 {
             println!("selftest FAILED: missing outputs / bidirectional\n   got  {outs:?}\n   want {want:?}");
         }
     }
+    // continue mode: after a checked row whose virtual signal could not be evaluated the run
+    // goes on with the next statement; after any other error the reference stops
+    {
+        let sigs = vec![sig("A", 8, SigKind::In), sig("Q", 8, SigKind::Out)];
+        let tt = t(sigs, &["A", "Q"], vec![
+            Stmt::Declare("V".into(), Expr::bin(BinOp::Add, id("Q"), Expr::Num(1))),
+            Stmt::Let("a".into(), Expr::Num(5)),
+            Stmt::Row(vec![ex(id("a")), Entry::X]),
+            Stmt::Row(vec![ex(Expr::bin(BinOp::Add, id("a"), Expr::Num(1))), Entry::X]),
+            Stmt::Row(vec![ex(Expr::bin(BinOp::Add, id("a"), Expr::Num(2))), Entry::X]),
+        ], vec![("Q", SigBeh::Script(vec![OutVal::Num(0), OutVal::Num(1), OutVal::Z, OutVal::Num(3)]))]);
+        let virt = vec!["V".to_string()];
+        let r = run_reference(&RefInput {
+            signals: &tt.signals,
+            program: &tt.program,
+            dut: &tt.dut,
+            draws: &[],
+            max_steps: 100,
+            virtual_order: &virt,
+            continue_after_error: true,
+        });
+        let shape: Vec<String> = r
+            .steps
+            .iter()
+            .map(|s| match &s.item {
+                RefItem::Row { inputs, outputs } => format!(
+                    "row {:?} V={:?}",
+                    inputs,
+                    outputs.iter().find(|o| o.0 == "V").map(|o| o.2)
+                ),
+                RefItem::RuntimeErr(c) => format!("err {c:?} continues={}", s.continues),
+                RefItem::DriverErr(i) => format!("driver {i}"),
+                RefItem::End => "end".into(),
+            })
+            .collect();
+        n += 1;
+        let want = vec![
+            "row [Num(5)] V=Some(Num(2))".to_string(),
+            "err ZxRead continues=true".to_string(),
+            "row [Num(7)] V=Some(Num(4))".to_string(),
+            "end".to_string(),
+        ];
+        if shape != want {
+            failed += 1;
+            println!("selftest FAILED: continue after failed virtual signal\n   got  {shape:?}\n   want {want:?}");
+        }
+    }
+    // deliberately unspecified things stop the comparison, they are never judged
+    {
+        let tt = t(a8(), &["A", "Q"], vec![
+            Stmt::Loop("i".into(), Expr::Num(3), vec![
+                Stmt::Row(vec![ex(id("i")), Entry::X]),
+                Stmt::Let("i".into(), Expr::Num(7)),
+            ]),
+        ], q0());
+        let got = rows(&tt);
+        n += 1;
+        if got.0 != vec![r(&[0])] || !got.1.starts_with("unspecified") {
+            failed += 1;
+            println!("selftest FAILED: counter rebinding must be flagged unspecified: {got:?}");
+        }
+        let tt = t(a8(), &["A", "Q"], vec![Stmt::Row(vec![ex(Expr::random(Expr::Num(1))), Entry::X])], q0());
+        let got = rows(&tt);
+        n += 1;
+        if !got.0.is_empty() || !got.1.starts_with("unspecified") {
+            failed += 1;
+            println!("selftest FAILED: random(1) must be flagged unspecified: {got:?}");
+        }
+    }
     if failed == 0 {
         println!("selftest OK: {n} golden cases");
         0
